@@ -316,7 +316,8 @@ const GREEDY: u8 = 3;
 const KK: u8 = 4;
 const CKK: u8 = 5;
 const FM: u8 = 6;
-const ENTRY_NAMES: [&str; 7] = ["rcb", "rib", "hilbert", "greedy", "karmarkar_karp", "karmarkar_karp_complete", "fiduccia_mattheyses"];
+const ADJNCY: u8 = 7;
+const ENTRY_NAMES: [&str; 8] = ["rcb", "rib", "hilbert", "greedy", "karmarkar_karp", "karmarkar_karp_complete", "fiduccia_mattheyses", "adjncy_csr"];
 
 #[derive(Clone, Debug)]
 struct Case {
@@ -335,6 +336,8 @@ struct Case {
     family: String,
     /// known-finding class computed from the input alone ("" = none)
     kf: &'static str,
+    /// run on the four-worker instance of the library (exact inputs only)
+    mt: bool,
 }
 
 #[derive(Clone, Debug)]
@@ -446,6 +449,13 @@ fn run_ref(c: &Case, arr: &mut [usize]) -> Option<Result<(), (String, String)>> 
                 _ => None,
             }
         }
+        ADJNCY => {
+            // the structure check of the CSR constructor: arr[0] := 1 if sprs accepts the matrix
+            let a = c.adj.as_ref().unwrap();
+            let ok = by_type!(&a.vals, v, coupe::sprs::CsMatView::try_new((a.size, a.size), &a.xadj[..], &a.adjncy[..], &v[..]).is_ok());
+            arr[0] = ok as usize;
+            Some(Ok(()))
+        }
         _ => {
             // FM
             let a = c.adj.as_ref().unwrap();
@@ -468,6 +478,23 @@ fn run_ref(c: &Case, arr: &mut [usize]) -> Option<Result<(), (String, String)>> 
 
 /// The C entry point on the data as laid out by the caller.
 fn run_c(api: &Api, c: &Case, arr: &mut [usize]) -> i64 {
+    if c.entry == ADJNCY {
+        // arr[0] := 1 if the checked constructor returns a matrix (and, for a well-formed input, the
+        // unchecked one too)
+        let a = c.adj.as_ref().unwrap();
+        unsafe {
+            let h = (api.adjncy_csr)(a.size, a.xadj.as_ptr(), a.adjncy.as_ptr(), a.vals.ty() as c_int, a.vals.ptr() as *const c_void);
+            let mut ok = !h.is_null();
+            (api.adjncy_free)(h);
+            if ok && c.a == 1 {
+                let h2 = (api.adjncy_csr_unchecked)(a.size, a.xadj.as_ptr(), a.adjncy.as_ptr(), a.vals.ty() as c_int, a.vals.ptr() as *const c_void);
+                ok = !h2.is_null();
+                (api.adjncy_free)(h2);
+            }
+            arr[0] = ok as usize;
+        }
+        return 0;
+    }
     let w = Live::new(api, &c.weights);
     let p = c.points.as_ref().map(|p| Live::new(api, p));
     let code = unsafe {
@@ -550,10 +577,10 @@ fn gen_weights(r: &mut Rng, n: usize, ty: u8, fam: &mut String) -> Cells {
     }
 }
 
-fn gen_points(r: &mut Rng, n: usize, dim: usize, fam: &mut String) -> Cells {
+fn gen_points(r: &mut Rng, n: usize, dim: usize, grid: f64, fam: &mut String) -> Cells {
     let k = r.below(6);
     let mut v = Vec::with_capacity(n * dim);
-    let g = |r: &mut Rng, lo: i64, hi: i64| r.range(lo, hi) as f64 * 0.25;
+    let g = |r: &mut Rng, lo: i64, hi: i64| r.range(lo, hi) as f64 * grid;
     match k {
         0 => {
             fam.push_str("p-uniform");
@@ -626,33 +653,362 @@ fn wrap(r: &mut Rng, repr: u8, tag: u8, n: usize, w: usize, cells: Cells) -> Dat
     }
 }
 
-fn gen_case(r: &mut Rng, _tier: &str, slice_only: bool) -> Case {
-    let entry = if slice_only { GREEDY } else { r.below(7) as u8 };
+/// Random symmetric graph on n vertices as sorted CSR with positive i64 edge weights.
+fn gen_graph(r: &mut Rng, n: usize) -> (Vec<usize>, Vec<usize>, Vec<i64>) {
+    let mut rows: Vec<std::collections::BTreeMap<usize, i64>> = vec![Default::default(); n];
+    let mut edge = |rows: &mut Vec<std::collections::BTreeMap<usize, i64>>, i: usize, j: usize, w: i64| {
+        if i != j && i < n && j < n {
+            rows[i].insert(j, w);
+            rows[j].insert(i, w);
+        }
+    };
+    match r.below(5) {
+        0 => {
+            // path
+            for i in 1..n {
+                let w = r.range(1, 4);
+                edge(&mut rows, i - 1, i, w);
+            }
+        }
+        1 => {
+            // grid of width 4
+            for i in 0..n {
+                if i % 4 != 3 {
+                    edge(&mut rows, i, i + 1, 1);
+                }
+                edge(&mut rows, i, i + 4, 1);
+            }
+        }
+        2 => {
+            // star + isolated vertices
+            for i in 1..n {
+                if r.chance(2, 3) {
+                    let w = r.range(1, 9);
+                    edge(&mut rows, 0, i, w);
+                }
+            }
+        }
+        3 => {
+            // two cliques joined by one edge
+            let h = n / 2;
+            for i in 0..n {
+                for j in 0..i {
+                    if (i < h) == (j < h) {
+                        edge(&mut rows, i, j, 2);
+                    }
+                }
+            }
+            if h > 0 && h < n {
+                edge(&mut rows, 0, h, 1);
+            }
+        }
+        _ => {
+            let m = r.below(3 * n as u64 + 1);
+            for _ in 0..m {
+                let i = r.below(n.max(1) as u64) as usize;
+                let j = r.below(n.max(1) as u64) as usize;
+                let w = r.range(1, 20);
+                edge(&mut rows, i, j, w);
+            }
+        }
+    }
+    let mut xadj = vec![0usize];
+    let mut adjncy = Vec::new();
+    let mut vals = Vec::new();
+    for row in &rows {
+        for (j, w) in row {
+            adjncy.push(*j);
+            vals.push(*w);
+        }
+        xadj.push(adjncy.len());
+    }
+    (xadj, adjncy, vals)
+}
+
+fn pick_repr_tag(r: &mut Rng, slice_only: bool) -> (u8, u8) {
+    (if slice_only { ARRAY } else { r.below(3) as u8 }, r.below(3) as u8)
+}
+
+fn gen_case(r: &mut Rng, tier: &str, slice_only: bool) -> Case {
+    let big = tier == "thorough";
+    let entry = if slice_only {
+        GREEDY
+    } else {
+        // the CSR constructor gets a small share
+        match r.below(22) {
+            21 => ADJNCY,
+            k => (k % 7) as u8,
+        }
+    };
     let mut fam = format!("{}/", ENTRY_NAMES[entry as usize]);
-    let n = match r.below(10) {
+    let nmax = if entry == CKK { 11 } else if big { 40 } else { 24 };
+    let mut n = match r.below(12) {
         0 => 0,
         1 => 1,
         2 => 2,
-        _ => r.range(3, 24) as usize,
+        3 => 1 << r.range(2, 4),
+        _ => r.range(3, nmax) as usize,
     };
-    let wrepr = if slice_only { ARRAY } else { r.below(3) as u8 };
-    let wty = r.below(3) as u8;
-    fam.push_str(&format!("{}-{}/", REPR_NAMES[wrepr as usize], TY_NAMES[wty as usize]));
-    let wcells = gen_weights(r, n, wty, &mut fam);
-    let weights = wrap(r, wrepr, wty, n, 1, wcells);
+    let (wrepr, wty) = pick_repr_tag(r, slice_only);
+    let mut special = String::new();
+    let mut scratch = String::new();
+    let mut c = Case { entry, dim: 0, points: None, weights: wrap(r, ARRAY, wty, 0, 1, Cells::I64(vec![])), adj: None, a: 0, b: 0, c: 0, f: 0.0, p0: vec![], family: String::new(), kf: "", mt: false };
     let extra = r.below(3) as usize;
-    let a = match r.below(8) {
-        0 => 0,
-        1 => 1,
-        2 | 3 => 2,
-        4 => 3,
-        5 => n,
-        6 => n + 2,
-        _ => r.range(2, 6) as usize,
-    };
-    let p0: Vec<usize> = (0..n + extra).map(|i| 1000 + i).collect();
-    let _ = entry;
-    Case { entry, dim: 0, points: None, weights, adj: None, a, b: 0, c: 0, f: 0.0, p0, family: fam, kf: "" }
+    match entry {
+        GREEDY | KK | CKK => {
+            let mut wcells = gen_weights(r, n, wty, &mut scratch);
+            c.a = match r.below(8) {
+                0 => 0,
+                1 => 1,
+                2 | 3 => 2,
+                4 => 3,
+                5 => n,
+                6 => n + 2,
+                _ => r.range(2, 6) as usize,
+            };
+            c.f = match r.below(8) {
+                0 | 1 => 0.0,
+                2 => 0.01,
+                3 => 0.05,
+                4 => 0.1,
+                5 => 0.5,
+                6 => 1.0,
+                _ => (r.below(1000) as f64) / 1000.0,
+            };
+            // inputs known to make the library panic inside the guarded region
+            if !slice_only && r.chance(1, 9) {
+                match (entry, r.below(4)) {
+                    (KK, 0) | (KK, 1) => {
+                        // Real::cmp: "cannot compare with NaN"
+                        n = n.max(2);
+                        let mut v: Vec<f64> = (0..n).map(|_| r.range(0, 50) as f64).collect();
+                        let i = r.below(n as u64) as usize;
+                        v[i] = f64::NAN;
+                        wcells = Cells::F64(v);
+                        c.a = *r.pick(&[2, 3]);
+                        special = "panic-nan-weight".into();
+                    }
+                    (CKK, 0) | (CKK, 1) => {
+                        // T::from_f64(sum * tolerance).unwrap() on a tolerance that does not convert
+                        n = n.clamp(2, 8);
+                        wcells = if r.chance(1, 2) { Cells::I32((0..n).map(|_| r.range(1, 50) as i32).collect()) } else { Cells::I64((0..n).map(|_| r.range(1, 50)).collect()) };
+                        c.f = *r.pick(&[f64::NAN, 1e30, f64::INFINITY]);
+                        special = "panic-tolerance".into();
+                    }
+                    (GREEDY, 0) | (KK, 2) => {
+                        // vec![zero; usize::MAX] / num_parts * weight_count: capacity / arithmetic overflow
+                        n = n.max(2);
+                        wcells = Cells::I64((0..n).map(|_| r.range(1, 50)).collect());
+                        c.a = usize::MAX;
+                        special = "panic-huge-part-count".into();
+                    }
+                    _ => {
+                        // i32 sums overflow (the cdylib and the harness are built with overflow checks)
+                        n = n.max(4);
+                        wcells = Cells::I32((0..n).map(|_| i32::MAX - r.range(0, 3) as i32).collect());
+                        c.a = 2;
+                        c.f = 0.0;
+                        special = "panic-i32-overflow".into();
+                    }
+                }
+            }
+            let t = wcells.ty();
+            c.weights = wrap(r, wrepr, t, n, 1, wcells);
+            fam.push_str(&format!("{}-{}", REPR_NAMES[wrepr as usize], TY_NAMES[t as usize]));
+            c.p0 = (0..n + extra).map(|i| 1000 + i).collect();
+        }
+        RCB | RIB | HILBERT => {
+            c.dim = if entry == HILBERT {
+                0
+            } else {
+                match r.below(10) {
+                    0..=3 => 2,
+                    4..=7 => 3,
+                    _ => *r.pick(&[0usize, 1, 4, 5, 7, usize::MAX]),
+                }
+            };
+            let w = if c.dim == 3 { 3 } else { 2 };
+            // the four-worker instance: only inputs whose arithmetic is exact whatever the reduction tree
+            // (DESIGN C06): Rcb on a dyadic grid; Rib / Hilbert additionally need 2^k points on an integer grid
+            c.mt = r.chance(1, 6);
+            let mut grid = 0.25;
+            if c.mt && entry != RCB {
+                n = 1 << r.range(0, 5);
+                grid = 1.0;
+            }
+            let pcells = gen_points(r, n, w, grid, &mut scratch);
+            let (prepr, _) = pick_repr_tag(r, false);
+            // the glue never looks at the points' tag: mostly the honest one, sometimes another
+            let ptag = if r.chance(4, 5) { 2 } else { r.below(2) as u8 };
+            c.points = Some(wrap(r, prepr, ptag, n, w, pcells));
+            // weights: same length, or the mismatched-length stream
+            let mut wn = n;
+            if r.chance(1, 8) {
+                wn = match r.below(3) {
+                    0 => 0,
+                    1 => n + 1 + r.below(2) as usize,
+                    _ => n.saturating_sub(1),
+                };
+                if wn != n {
+                    special = "len-mismatch".into();
+                }
+            }
+            let wt = if entry == HILBERT && r.chance(5, 6) { 2 } else { wty };
+            let mut wcells = gen_weights(r, wn, wt, &mut scratch);
+            if let Cells::F64(v) = &mut wcells {
+                // Rcb / Hilbert divide by weight sums: keep them positive
+                for x in v.iter_mut() {
+                    *x = x.abs() + 1.0;
+                }
+            }
+            if let Cells::I32(v) = &mut wcells {
+                for x in v.iter_mut() {
+                    *x = x.abs() + 1;
+                }
+            }
+            if let Cells::I64(v) = &mut wcells {
+                for x in v.iter_mut() {
+                    *x = x.abs() + 1;
+                }
+            }
+            c.weights = wrap(r, wrepr, wt, wn, 1, wcells);
+            if entry == HILBERT {
+                c.a = match r.below(8) {
+                    0 => 0,
+                    1 => 1,
+                    2 | 3 => 2,
+                    4 => 3,
+                    5 => n,
+                    6 => n + 2,
+                    _ => r.range(2, 6) as usize,
+                };
+                c.b = *r.pick(&[0usize, 1, 2, 3, 4, 8, 12, 16, 31, 32, 33, 64, u32::MAX as usize]);
+                if c.b > 32 {
+                    special = "invalid-order".into();
+                }
+                if wt != 2 {
+                    special = "weights-not-double".into();
+                }
+            } else {
+                c.a = r.below(5) as usize;
+                c.f = *r.pick(&[0.05, 0.1, 0.0, 0.5]);
+                if c.dim != 2 && c.dim != 3 {
+                    special = "bad-dimension".into();
+                }
+            }
+            fam.push_str(&format!("{}-points/{}-{}", REPR_NAMES[prepr as usize], REPR_NAMES[wrepr as usize], TY_NAMES[wt as usize]));
+            c.p0 = (0..n.max(wn) + extra).map(|i| 1000 + i).collect();
+        }
+        FM => {
+            let (xadj, adjncy, vals) = gen_graph(r, n);
+            let vals = match r.below(8) {
+                0 => {
+                    special = "adjacency-not-int64".into();
+                    Cells::I32(vals.iter().map(|x| *x as i32).collect())
+                }
+                1 => {
+                    special = "adjacency-not-int64".into();
+                    Cells::F64(vals.iter().map(|x| *x as f64).collect())
+                }
+                _ => Cells::I64(vals),
+            };
+            c.adj = Some(Adj { size: n, xadj, adjncy, vals });
+            // weights: usually one per vertex; sometimes another count (the algorithm reports the mismatch)
+            let mut wn = n;
+            if r.chance(1, 10) {
+                wn = if r.chance(1, 2) { n + 1 } else { n.saturating_sub(1) };
+                if wn != n && special.is_empty() {
+                    special = "len-mismatch".into();
+                }
+            }
+            let mut wcells = gen_weights(r, wn, wty, &mut scratch);
+            match &mut wcells {
+                Cells::I32(v) => v.iter_mut().for_each(|x| *x = x.abs()),
+                Cells::I64(v) => v.iter_mut().for_each(|x| *x = x.abs()),
+                Cells::F64(v) => v.iter_mut().for_each(|x| *x = x.abs()),
+            }
+            c.weights = wrap(r, wrepr, wty, wn, 1, wcells);
+            c.a = *r.pick(&[0usize, 1, 2, 5]);
+            c.b = *r.pick(&[0usize, 0, 1, 3, n]);
+            c.c = *r.pick(&[0usize, 1, 2, 5]);
+            c.f = *r.pick(&[-1.0, 0.0, 0.05, 0.25, 1.0, 1.0]);
+            if r.chance(1, 14) && wty != 2 && special.is_empty() {
+                // W::from_f64(NaN).unwrap() for an integer weight type
+                c.f = f64::NAN;
+                special = "panic-nan-imbalance".into();
+            }
+            let mut p0: Vec<usize> = (0..wn).map(|_| r.below(2) as usize).collect();
+            if r.chance(1, 12) && wn > 0 {
+                let i = r.below(wn as u64) as usize;
+                p0[i] = 2 + r.below(2) as usize;
+                if special.is_empty() {
+                    special = "three-parts".into();
+                }
+            }
+            p0.extend((0..extra).map(|i| 1000 + i));
+            c.p0 = p0;
+            fam.push_str(&format!("{}-{}", REPR_NAMES[wrepr as usize], TY_NAMES[wty as usize]));
+        }
+        _ => {
+            // coupe_adjncy_csr: well-formed or structurally broken matrices (always inside the memory contract:
+            // xadj has size+1 entries, its last one is the length of adjncy and of data)
+            let (mut xadj, mut adjncy, vals) = gen_graph(r, n);
+            let k = r.below(6);
+            let m = adjncy.len();
+            match k {
+                0 if m >= 2 => {
+                    // a row with its columns out of order or duplicated
+                    let row = (0..n).find(|i| xadj[i + 1] - xadj[*i] >= 2);
+                    if let Some(i) = row {
+                        let s = xadj[i];
+                        if r.chance(1, 2) {
+                            adjncy.swap(s, s + 1);
+                            special = "unsorted-row".into();
+                        } else {
+                            adjncy[s + 1] = adjncy[s];
+                            special = "duplicate-column".into();
+                        }
+                    }
+                }
+                1 if m >= 1 => {
+                    let i = r.below(m as u64) as usize;
+                    adjncy[i] = n + r.below(3) as usize;
+                    special = "column-out-of-range".into();
+                }
+                2 if n >= 2 => {
+                    // xadj not monotone (last entry kept)
+                    let i = 1 + r.below(n as u64 - 1) as usize;
+                    xadj[i] = xadj[i + 1] + 1 + r.below(2) as usize;
+                    if xadj[i] > m {
+                        xadj[i] = m;
+                    }
+                    special = "xadj-not-sorted".into();
+                }
+                3 if n >= 1 && m >= 1 => {
+                    xadj[0] = 1;
+                    special = "xadj-not-from-zero".into();
+                }
+                _ => {}
+            }
+            let vals = match r.below(3) {
+                0 => Cells::I32(vals.iter().map(|x| *x as i32).collect()),
+                1 => Cells::I64(vals),
+                _ => Cells::F64(vals.iter().map(|x| *x as f64).collect()),
+            };
+            c.a = r.below(2) as usize; // 1: also try the unchecked constructor (well-formed input only)
+            c.adj = Some(Adj { size: n, xadj, adjncy, vals });
+            c.p0 = vec![9];
+            fam.push_str("csr");
+        }
+    }
+    if !special.is_empty() {
+        fam = format!("{}/{}", ENTRY_NAMES[entry as usize], special);
+    }
+    if c.mt {
+        fam.push_str("/4-threads");
+    }
+    c.family = fam;
+    c
 }
 
 // ---------------------------------------------------------------- main
@@ -673,20 +1029,87 @@ fn numty(c: &Case) -> &'static str {
     }
 }
 
+/// First use of the library's global rayon pool (its size is read from the environment at that moment).
+fn warm_up(api: &Api) {
+    let c = Case {
+        entry: RCB,
+        dim: 2,
+        points: Some(DataSpec { repr: ARRAY, tag: 2, len: 4, w: 2, elems: Cells::F64(vec![0., 0., 1., 0., 0., 1., 1., 1.]), rev: false }),
+        weights: DataSpec { repr: CONSTANT, tag: 0, len: 4, w: 1, elems: Cells::I32(vec![1]), rev: false },
+        adj: None,
+        a: 1,
+        b: 0,
+        c: 0,
+        f: 0.05,
+        p0: vec![0; 4],
+        family: String::new(),
+        kf: "",
+        mt: false,
+    };
+    let mut arr = c.p0.clone();
+    let code = run_c(api, &c, &mut arr);
+    assert_eq!(code, 0, "warm-up call of coupe_rcb failed");
+}
+
+/// Runtime side of ffi_names_agree: every function coupe.h declares resolves in the library that was built,
+/// and coupe_strerror knows every code of the header's enum.
+fn check_exports(api: &Api, out: &str) {
+    let repo = std::env::var("VERIF_REPO").unwrap_or_else(|_| "/repo".into());
+    let hdr = std::fs::read_to_string(format!("{repo}/ffi/include/coupe.h")).expect("coupe.h");
+    let mut missing = Vec::new();
+    let mut count = 0;
+    let mut i = 0;
+    let b = hdr.as_bytes();
+    while let Some(p) = hdr[i..].find("coupe_") {
+        let s = i + p;
+        let mut e = s;
+        while e < b.len() && (b[e].is_ascii_alphanumeric() || b[e] == b'_') {
+            e += 1;
+        }
+        let name = &hdr[s..e];
+        let prev_ok = s == 0 || !(b[s - 1].is_ascii_alphanumeric() || b[s - 1] == b'_');
+        let mut k = e;
+        while k < b.len() && b[k] == b' ' {
+            k += 1;
+        }
+        // a declaration: `name(` at the start of a prototype (not inside a comment line)
+        let line_start = hdr[..s].rfind('\n').map(|x| x + 1).unwrap_or(0);
+        let in_comment = hdr[line_start..s].trim_start().starts_with('*') || hdr[line_start..s].contains("/*");
+        if prev_ok && !in_comment && k < b.len() && b[k] == b'(' {
+            count += 1;
+            let ok = unsafe { api.lib.get::<unsafe extern "C" fn()>(name.as_bytes()).is_ok() };
+            if !ok {
+                missing.push(name.to_string());
+            }
+        }
+        i = e;
+    }
+    let mut msgs = 0;
+    for code in 0..hdr.lines().filter(|l| l.trim_start().starts_with("COUPE_ERR_") && l.trim_end().ends_with(',')).count() as c_int {
+        let p = unsafe { (api.strerror)(code) };
+        if !p.is_null() && unsafe { std::ffi::CStr::from_ptr(p) }.to_bytes().len() > 3 {
+            msgs += 1;
+        }
+    }
+    std::fs::write(
+        format!("{out}/exports.json"),
+        format!("{{\"declared\":{},\"missing\":{:?},\"strerror_messages\":{}}}", count, missing, msgs),
+    )
+    .unwrap();
+    let codes = hdr.lines().filter(|l| l.trim_start().starts_with("COUPE_ERR_") && l.trim_end().ends_with(',')).count();
+    if !missing.is_empty() || count == 0 || msgs != codes {
+        eprintln!("coupe.h declares functions the library does not export: {:?} (declared {}, messages {})", missing, count, msgs);
+        std::process::exit(4);
+    }
+}
+
 fn main() {
     let a = parse_args();
     quiet_panics();
-    // one worker in the harness's and in the library's global rayon pools: the reduction trees of the
-    // two sides are then the same function of the input length
-    std::env::set_var("RAYON_NUM_THREADS", "1");
+    // the library's own panic hook prints a backtrace per panic when this is set (20x slower)
+    std::env::set_var("RUST_BACKTRACE", "0");
     let argv: Vec<String> = std::env::args().collect();
     let child = argv.iter().any(|x| x == "--child");
-    let so = if child {
-        PathBuf::from(std::env::var("VERIF_FFI_SO").expect("VERIF_FFI_SO"))
-    } else {
-        build_ffi(&a.out)
-    };
-    let api = load(&so);
     let slice_only = std::env::var("C17_SLICE").is_ok();
     let mut rng = Rng::new(a.seed);
 
@@ -702,11 +1125,33 @@ fn main() {
             }
         }
         let c = case.unwrap();
+        std::env::set_var("RAYON_NUM_THREADS", if c.mt { "4" } else { "1" });
+        let api = load(&PathBuf::from(std::env::var("VERIF_FFI_SO").expect("VERIF_FFI_SO")));
         let mut arr = c.p0.clone();
         let code = run_c(api, &c, &mut arr);
         println!("RESULT {} {}", code, arr.iter().map(|x| x.to_string()).collect::<Vec<_>>().join(","));
         return;
     }
+
+    // Two instances of the library.  (1) one worker in the library's global rayon pool and in the harness's own:
+    // the reduction trees of the two sides are then the same function of the input length, so even inexact
+    // float sums agree.  (2) a copy of the .so (separate statics, hence a separate global pool) with four workers,
+    // used only on inputs whose arithmetic is exact (DESIGN C06: `exact` / `exact_obb`), against the Rust API in a
+    // four-worker pool: real concurrency for the callback and constant representations.
+    let so = build_ffi(&a.out);
+    std::env::set_var("RAYON_NUM_THREADS", "1");
+    let api1 = load(&so);
+    warm_up(api1);
+    let _ = coupe::rayon::current_num_threads(); // the harness's global pool: created now, with one worker
+    let so_mt = so.with_file_name(format!("libcoupe_mt_{}.so", std::process::id()));
+    std::fs::copy(&so, &so_mt).expect("copy of the .so");
+    std::env::set_var("RAYON_NUM_THREADS", "4");
+    let api4 = load(&so_mt);
+    warm_up(api4);
+    let _ = std::fs::remove_file(&so_mt);
+    std::env::set_var("RAYON_NUM_THREADS", "1");
+
+    check_exports(api1, &a.out);
 
     let mut w = CaseWriter::new(&a.out, "From Coupe Require Import Lib.Prelude Lib.Report Model.Ffi Run.RunC17.", "case17", "run17", 250);
     let (mut hangs, mut ref_panics, mut aborts, mut children) = (0usize, 0usize, 0usize, 0usize);
@@ -720,7 +1165,7 @@ fn main() {
         }
         // (1) Rust reference
         let c1 = c.clone();
-        let rr = guarded(0, Duration::from_secs(20), move || {
+        let rr = guarded(if c.mt { 4 } else { 0 }, Duration::from_secs(20), move || {
             let mut arr = c1.p0.clone();
             let r = run_ref(&c1, &mut arr);
             (r, arr)
@@ -785,6 +1230,7 @@ fn main() {
             }
         } else {
             let c2 = c.clone();
+            let api = if c.mt { api4 } else { api1 };
             match guarded(0, Duration::from_secs(20), move || {
                 let mut arr = c2.p0.clone();
                 let code = run_c(api, &c2, &mut arr);
